@@ -266,11 +266,37 @@ def int_float_grid_search(log):
     return {'witness': None, 'grid_points': len(cases)}
 
 
+def float_to_int_grid_search(log):
+    """int(f) for integral doubles around the representation boundaries vs Python (exact)."""
+    fs = set()
+    for k in (0, 1, 30, 31, 32, 52, 53, 54, 62, 63, 64, 65, 100, 200):
+        for sgn in (1.0, -1.0):
+            base = sgn * float(1 << k)
+            fs.add(base)
+            import math
+            fs.add(math.nextafter(base, 0.0))
+            fs.add(math.nextafter(base, sgn * float('inf')))
+            fs.add(base + sgn * 1.0)
+            fs.add(base - sgn * 1.0)
+    fs = sorted(f for f in fs if f == f and abs(f) != float('inf'))
+    exprs = ['int(%s)' % flit(f) for f in fs]
+    outs = eval_many(exprs, log)
+    for f, e, o in zip(fs, exprs, outs):
+        want = 'OK %d' % int(f)
+        if o != want:
+            return {'witness': {'expression': e, 'real_library': o, 'oracle_python': want}, 'grid_points': len(fs)}
+    return {'witness': None, 'grid_points': len(fs)}
+
+
 def find_witness(prop, v, repo, log):
     if v.get('backend') == 'kani/cbmc':
         return kani_replay(v, log)
     oid = v.get('obligation', '')
     fn = v.get('function', '')
+    if 'C10.conv.' in oid or 'from_f64' in fn:
+        r = float_to_int_grid_search(log)
+        r['search'] = 'int(f) for doubles around 2^k (k up to 200) and their neighbours on the real library vs Python'
+        return r
     if 'C09.cmp.' in oid or 'NumRef' in fn:
         r = int_float_grid_search(log)
         r['search'] = 'ints around 2^31..2^100 x floats around the same powers (+inf, -inf, nan): ==, < on the real library vs exact comparison'
